@@ -24,6 +24,12 @@ def names_rows(rows):
     return [{t.qualified_name: v for t, v in r.items()} for r in rows]
 
 
+def typed(rows):
+    """Type-sensitive form of a list of name -> value rows (1, 1.0 and True compare equal but are
+    different values to a caller; -0.0 is told from 0.0 by its repr)."""
+    return [sorted((k, type(v).__name__, repr(v)) for k, v in r.items()) for r in rows]
+
+
 def lib_census(rel) -> collections.Counter:
     c: collections.Counter = collections.Counter()
     for node in interp.walk(rel):
